@@ -43,6 +43,17 @@ var knownFingerprints = map[string][]string{}
 
 // loadKnownFuncs reads the known-functions file: key (module, package, declaration name) -> signature shape.
 func loadKnownFuncs() map[string]string {
+	// the two modules are loaded concurrently: the file is read once and the tables are read-only afterwards
+	knownOnce.Do(func() { knownTable = readKnownFuncs() })
+	return knownTable
+}
+
+var (
+	knownOnce  sync.Once
+	knownTable map[string]string
+)
+
+func readKnownFuncs() map[string]string {
 	if KnownFuncsFile == "" {
 		return nil
 	}
